@@ -507,6 +507,18 @@ def main():
             key = "expr=value-outside-image/top=%s/%s" % (top, region)
             if info.get("beyond"):
                 key = "expr=value-outside-image/int-to-float-rounding-beyond-2^53"
+            else:
+                vj = rv["ok"]["v"] if rv["ok"].get("t") == "Optional" and rv["ok"].get("v") is not None else rv["ok"]
+                ib = info["I"]["of"] if info["I"]["t"] == "Optional" else info["I"]
+                big = False
+                try:
+                    big = abs(driver.bits_f64(vj["v"])) >= float(P53) if vj.get("t") == "Float" else False
+                except Exception:
+                    big = False
+                if ib["t"] == "Integer" and vj.get("t") == "Float" and big:
+                    # Polymorphic::super_image picked the integer implementation (a float type with integral values converts to
+                    # Integer), Polymorphic::value the float one (the value's variant): saturation / exactness differ
+                    key = "expr=value-outside-image/integer-image-float-value"
             ck.violation(key, "%s = %s on the row %s, outside the propagated range %s of %s" % (gen.show(e), rv.get("s"), shown, info["image_s"], json.dumps(T)[:200]),
                          dict(expr=e, row=shown, image=info["I"], type=T))
         elif info.get("beyond"):
